@@ -76,15 +76,19 @@ impl Eval<'_> {
     }
 
     pub fn report(&self, req: &Req, ent: &EntSpec, obs: &ServeObs, fs: Vec<Finding>, st: &mut Stats, order: u64) {
+        let mut checked = false;
         for fi in fs {
             if !fi.props.contains(&self.prop) {
                 continue;
             }
-            // Determinism: the same case must give the same observation again.
-            let again = run_serve(req, ent, self.extra_polls, HORIZON).expect("rerun");
-            if again.stable_repr() != obs.stable_repr() {
-                eprintln!("MACHINERY ERROR: non-deterministic replay of {}", case_json(req, ent, self.extra_polls));
-                std::process::exit(2);
+            if !checked {
+                // Determinism: the same case must give the same observation again.
+                let again = run_serve(req, ent, self.extra_polls, HORIZON).expect("rerun");
+                if again.stable_repr() != obs.stable_repr() {
+                    eprintln!("MACHINERY ERROR: non-deterministic replay of {}", case_json(req, ent, self.extra_polls));
+                    std::process::exit(2);
+                }
+                checked = true;
             }
             let extra = self.extra_polls;
             st.violation(order, fi.key.clone(), fi.msg.clone(), || {
@@ -1056,7 +1060,7 @@ pub fn run_c14(run: &mut Run) -> Stats {
     }
     run.rule = "all two-request histories: request 1 in {GET, GET+satisfiable Range, GET+If-None-Match miss, unsatisfiable Range (416), failing If-Match (412), If-None-Match hit (304), multi-range}; request 2 = GET/HEAD echoing every subset of {If-None-Match: <served ETag>, If-Modified-Since: <served Last-Modified>, If-Match: <served ETag>, If-Unmodified-Since: <served Last-Modified>, If-Range: <served ETag> + Range} (32 subsets), built from the bytes actually served; x etag {absent, strong, weak} x mtime {absent, epoch, whole second, +1ms, +1ns, +999999999ns, now+1day} x entity header sets {none,1,2}. Oracle step 1: Accept-Ranges, ETag byte-equal, Date/Last-Modified parseable with LM <= Date and LM == floor(mtime) for past mtimes, entity headers present on 200/206-without-If-Range and absent on 304/412/416. Step 2: outcome derived from the echoed subset alone. non-trivial = distinct (entity, first request, echoed subset, method)".into();
     run.bounds = json!({"etag": 3, "mtime": 7, "header_sets": 3, "first_requests": firsts.len(), "echo_subsets": 32});
-    run.assumptions.push("SystemTime::now() is not controlled: past mtimes are decades old; for the future mtime the two date echoes are excluded (their outcome depends on whether the clock ticks between the requests)".into());
+    run.assumptions.push("SystemTime::now() is not controlled: past mtimes are decades old, the future one is a day ahead, so no verdict depends on when the two calls happen".into());
     let ev = Eval { prop: &run.prop.clone(), extra_polls: 1 };
     par_for(outer.len() as u64, threads(), |i, st| {
         let (ei, mi, hi, fi) = outer[i as usize];
@@ -1085,9 +1089,10 @@ pub fn run_c14(run: &mut Run) -> Stats {
                 if (ims || ius) && served_lm.is_none() {
                     continue;
                 }
-                if is_future && (ims || ius) {
-                    continue; // clock-dependent; excluded (see assumptions)
-                }
+                // A future modification time is served as Last-Modified = Date = now (clamped).
+                // Echoing that value back compares it with the *unclamped* future time: these
+                // violations are tagged so that the known-findings file can name them precisely.
+                let future_date_echo = is_future && (ims || ius);
                 if inm {
                     r2 = r2.with("if-none-match", served_etag.as_ref().unwrap());
                 }
@@ -1120,25 +1125,29 @@ pub fn run_c14(run: &mut Run) -> Stats {
                 if o2.panic.is_some() {
                     fail("echo-panic", format!("second request panicked: {:?}", o2.panic));
                 } else {
-                    // 412 may only come from If-Match with a weak tag (strong comparison fails).
+                    // Outcome by the statement alone. Nothing is claimed when a *weak* served
+                    // ETag is echoed in If-Match (the statement covers a served strong ETag).
                     let weak_im = im && !strong;
-                    if o2.status == 412 && !weak_im {
-                        fail("echo-412", format!("echoing served validators (subset {subset:05b}) gave 412"));
-                    }
-                    if weak_im {
-                        // nothing else asserted: the statement only covers a served *strong* ETag
-                    } else if inm || (!inm && ims) {
-                        if o2.status != 304 {
-                            fail("echo-not-304", format!("echoing {} gave {} instead of 304 (subset {subset:05b})", if inm { "If-None-Match: <served ETag>" } else { "If-Modified-Since: <served Last-Modified>" }, o2.status));
-                        }
-                    } else if ifr && strong {
-                        if o2.status != 206 || o2.hdr("content-range") != Some(b"bytes 2-5/1000") {
+                    if !weak_im {
+                        let expected: u16 = if inm || ims { 304 } else if ifr && strong { 206 } else { 200 };
+                        if o2.status == 412 {
+                            fail("echo-412", format!("echoing served validators (subset inm={inm} ims={ims} im={im} ius={ius} ifr={ifr}) gave 412"));
+                        } else if expected == 304 && o2.status != 304 {
+                            fail("echo-not-304", format!("echoing {} gave {} instead of 304 (subset inm={inm} ims={ims} im={im} ius={ius} ifr={ifr})", if inm { "If-None-Match: <served ETag>" } else { "If-Modified-Since: <served Last-Modified>" }, o2.status));
+                        } else if expected == 206 && (o2.status != 206 || o2.hdr("content-range") != Some(b"bytes 2-5/1000")) {
                             fail("echo-if-range", format!("If-Range: <served strong ETag> + Range gave {} {:?}", o2.status, o2.hdr("content-range").map(String::from_utf8_lossy)));
+                        } else if expected == 200 && o2.status != 200 {
+                            fail("echo-status", format!("subset inm={inm} ims={ims} im={im} ius={ius} ifr={ifr} gave {}", o2.status));
                         }
-                    } else if o2.status != 200 && !(ifr && !strong) {
-                        fail("echo-status", format!("subset {subset:05b} gave {}", o2.status));
                     }
                     check_validators(&r2, &entity, &o2, &mut fs);
+                }
+                if future_date_echo {
+                    for f in fs.iter_mut() {
+                        if f.key.starts_with("echo-") {
+                            f.key = format!("{}:future-mtime", f.key);
+                        }
+                    }
                 }
                 ev.report(&r2, &entity, &o2, fs, st, order);
                 st.sample(2, || json!({"first": r1.to_json(), "first_status": o1.status, "served_etag": served_etag.as_ref().map(|t| String::from_utf8_lossy(t).to_string()), "served_last_modified": served_lm.as_ref().map(|t| String::from_utf8_lossy(t).to_string()), "second": r2.to_json(), "second_status": o2.status}));
